@@ -36,3 +36,4 @@ from . import c04_classifiers   # noqa
 from . import base_fit          # noqa
 from . import util_init         # noqa
 from . import fits              # noqa
+from . import constraints_c     # noqa
